@@ -270,6 +270,7 @@ class P(Prop):
             return f"check_basic {r} {coq_curve(case['curve'])} {core.coq_bool(obs['accepted'])} {qs} {ans}"
         if st == "serial":
             stages = core.coq_list([f"({core.coq_q(s['rated'])}, {coq_curve(s['curve'])})" for s in case["stages"]])
+            r = f"(serial_rating {'(Some ' + r + ')' if case.get('rated_given', True) else 'None'} {stages})"
             if not obs["accepted"]:
                 # rejected by a stage constructor or by the system's own monotonicity check
                 return f"negb (serial_accepted {r} {stages})"
